@@ -104,6 +104,11 @@ def resolved_ok(v, graph, state, node, param, VS):
     )
 
 
+def passes_down_default(graph, state, node, param, VS, GraphNode):
+    """`param` of a nested-graph node would be served by a signature default of its inner nodes: the nested run resolves it."""
+    return isinstance(node, GraphNode) and src_kind(graph, state, node, param, VS) is VS.DEFAULT
+
+
 def is_gate(node):
     from hypergraph.nodes.gate import GateNode
     return isinstance(node, GateNode)
